@@ -1,6 +1,8 @@
 ----------------------------- MODULE Trace_Args -----------------------------
 (* Trace validation of factory calls against Args.tla (C14): the observed outcome must be one the documentation allows,
-   and an accepted alternative spelling must give the same symbol as the canonical spelling. *)
+   and an accepted alternative spelling must give the same symbol as the canonical spelling.  The canonical call is made the other
+   way round (all parameters positionally in the documented order, or all by keyword with the omitted ones given as their documented
+   default): an accepted request whose canonical form is refused or gives another symbol fails the clause. *)
 EXTENDS Args, IOUtils, TLCExt
 
 Obs == JsonDeserialize(IOEnv.TRACE_FILE)
@@ -20,7 +22,7 @@ Verdict(o) ==
       fails == {c \in {"outcome_allowed", "no_endless_loop", "same_symbol_as_canonical_spelling", "excluded_combination_refused"} :
                   CASE c = "outcome_allowed" -> cls \notin Allowed /\ cls # "timeout"
                     [] c = "no_endless_loop" -> cls = "timeout"
-                    [] c = "same_symbol_as_canonical_spelling" -> cls = "ok" /\ o.canon.status = "ok" /\ o.canon.matrix # o.matrix
+                    [] c = "same_symbol_as_canonical_spelling" -> cls = "ok" /\ o.canon.status # "none" /\ (o.canon.status # "ok" \/ o.canon.matrix # o.matrix)
                     [] c = "excluded_combination_refused" -> cls = "ok" /\ refusals # {} }
   IN [tid |-> o.tid, fails |-> {<<"C14", c>> : c \in fails}, devs |-> {},
       facts |-> [allowed |-> Allowed, why |-> refusals, seen |-> cls, exc |-> o.outcome.exc]]
